@@ -32,6 +32,8 @@ type Output interface {
 	StartPoint(ctx context.Context, runIds []string) (StartPoint, error)
 	Send(ctx context.Context, reader ChannelReader) error
 	SetRunId(ctx context.Context, runId string) error
+	// ResetStartPoint forgets the stored resume position
+	ResetStartPoint(ctx context.Context) error
 	Close()
 }
 
@@ -259,6 +261,17 @@ func (ro *RedisOutput) SetRunId(ctx context.Context, id string) error {
 		ro.cfg.RunId = id
 		return err
 	}, 3, time.Second*4, 0.3)
+}
+
+// ResetStartPoint : the source answered with a full resynchronisation, so the stored position
+// belongs to a history that is not continued. It must be gone before it is re-keyed to the new
+// run id (SetRunId) and before the snapshot is fetched : a replay that fails or is interrupted
+// must be followed by another full resynchronisation, not by "PSYNC <new id> <old offset>".
+func (ro *RedisOutput) ResetStartPoint(ctx context.Context) error {
+	if ro.bisyncEnabled() || len(ro.cfg.RunId) == 0 {
+		return nil
+	}
+	return ro.setCheckpoint(ctx, ro.cfg.RunId, -1, config.Version)
 }
 
 func (ro *RedisOutput) Send(ctx context.Context, reader ChannelReader) error {
